@@ -1,4 +1,5 @@
 import CE.Rules.ArraySplit
+import CE.Rules.TextSplit
 import CE.Rules.Spec
 /-
   C11 — array validation ignores how the data is split.
@@ -8,12 +9,21 @@ import CE.Rules.Spec
        (text types: every chunk's bytes are valid UTF-8),
   hence the verdict depends on the data events only through their concatenation per chunk.
 
-  Proved: the binary half (`arrayChunk` rule: u8…f64, uid, bit, media, custom binary, remote
-  reference) for any division of a chunk's bytes among any number of data events, including
-  empty ones — same state, same error, same completion.  The text half (streaming UTF-8 with
-  a carried remainder, `StreamStringData`) is `…_partial`: exercised on every run by the C11
-  correspondence (every split of short contents incl. inside multi-byte characters) and by
-  the independent specification `Spec.chunksP`, not yet a theorem.
+  Proved, binary half (`arrayChunk` rule: u8…f64, uid, bit, media, custom binary): any division of
+  a chunk's bytes among any number of data events, including empty ones — same state, same
+  error, same completion.
+  Proved, text half (`stringChunk` rule: strings, resource ids, remote references, custom text;
+  streaming UTF-8 with a carried remainder, `StreamStringData`):
+  * `text_accepts_iff_valid_utf8` — for EVERY division of a chunk's bytes among data events
+    (inside characters, empty events, bytes that start no character) the streaming validator
+    accepts all events and ends with nothing pending exactly when the concatenation is valid UTF-8
+    (`utf8.Valid` as modelled in CE/Basic/Utf8.lean).  Hence "every chunk ends on a character
+    boundary" and "the contents are valid UTF-8" are one condition per chunk, as the property says.
+  * `text_split_irrelevant` — on the rule machine: feeding `ds` and then the event that completes
+    the chunk gives the same result (both rejected, or the same state) as the single event
+    `ds.flatten ++ d`.
+  The models of `StreamStringData` / `IndexOfLastRuneStart` / `CalculateRuneByteCount` are tied to
+  the code by the RULES correspondence on every split of every generated chunking.
 -/
 namespace CE.Props.C11
 open CE CE.Rules
@@ -40,6 +50,40 @@ theorem binary_overflow_rejected (cfg : Cfg) (f : Bytes → Bool) (s : RState) (
     stepS (env0 cfg f) s (.arrayData d) = .error .chunkOverflow := by
   simp only [stepS, step, call, env0, hr, arrayChunk_table, fuel0, runActs, execAct, actMarkCompletedChunk,
     bind, Except.bind, h, if_true, Except.map]
+
+/-- text arrays: the streaming validator accepts a chunk's data events, however divided, exactly
+    when their concatenation is valid UTF-8 -/
+theorem text_accepts_iff_valid_utf8 (ds : List Bytes) :
+    (∃ pv, Utf8.sfeed [] ds = some ([], pv)) ↔ Utf8.valid ds.flatten = true := by
+  simpa using Utf8.sfeed_accepts_iff_valid [] ds (Or.inl rfl)
+
+/-- … and then everything was validated and appended to the string being built -/
+theorem text_accepted_bytes (ds : List Bytes) (pv : Bytes) (h : Utf8.sfeed [] ds = some ([], pv)) :
+    pv = ds.flatten := by
+  simpa using Utf8.sfeed_validated [] ds (Or.inl rfl) pv h
+
+/-- two divisions of the same bytes get the same verdict -/
+theorem text_same_bytes_same_verdict (ds ds' : List Bytes) (h : ds.flatten = ds'.flatten) :
+    (∃ pv, Utf8.sfeed [] ds = some ([], pv)) ↔ (∃ pv, Utf8.sfeed [] ds' = some ([], pv)) :=
+  Utf8.sfeed_split_irrelevant ds ds' h
+
+/-- the rule machine's `OnArrayData` in a text chunk IS that validator (non-completing event) -/
+theorem machine_text_event (cfg : Cfg) (f : Bytes → Bool) (s : RState) (d : Bytes)
+    (hr : s.cur.rule = .stringChunk) (hv : s.validator = .string) (h : s.chunkActual + d.length < s.chunkExpected) :
+    (stepS (env0 cfg f) s (.arrayData d)).toOption = (Utf8.sstep s.utf8Rem d).map (textAdvance s d) :=
+  stepS_text_noncompleting cfg f s d hr hv h
+
+/-- on the rule machine: any division of a text chunk's bytes is indistinguishable from one event -/
+theorem text_split_irrelevant (cfg : Cfg) (f : Bytes → Bool) (s : RState) (ds : List Bytes) (d : Bytes)
+    (hr : s.cur.rule = .stringChunk) (hv : s.validator = .string) (hrem : s.utf8Rem = [])
+    (hd : 0 < d.length) (hfill : s.chunkActual + totalLen ds + d.length = s.chunkExpected) :
+    ((feed (env0 cfg f) s ds).bind (fun s' => stepS (env0 cfg f) s' (.arrayData d))).toOption
+      = (stepS (env0 cfg f) s (.arrayData (ds.flatten ++ d))).toOption :=
+  text_any_split cfg f s ds d hr hv (Or.inl hrem) hd hfill
+
+/-- non-vacuity: "é" (C3 A9) split inside the character is accepted, a lone lead byte is not -/
+example : Utf8.sfeed [] [[0x61, 0xC3], [0xA9, 0x62]] = some ([], [0x61, 0xC3, 0xA9, 0x62]) ∧
+    Utf8.sfeed [] [[0x61, 0xC3]] = some ([0xC3], [0x61]) ∧ Utf8.sfeed [] [[0xC3], [0x62]] = none := by decide
 
 /-- non-vacuity: a reachable state meets the hypotheses -/
 example : ∃ s : RState, s.cur.rule = .arrayChunk ∧ s.chunkActual + totalLen [[1], [2, 3]] < s.chunkExpected :=
